@@ -58,6 +58,8 @@ def hkey(side, hclass):
         fam, sym = hclass[len("truncated-"):], "truncated-message-delivered"
     elif hclass.startswith("flood-"):
         fam, sym = hclass, "delivered"
+    elif hclass.startswith("chunk-overhead-"):
+        fam, sym = hclass, "over-cap-response-returned"
     else:
         fam, sym = hclass, "framed-not-rejected"
     return "C15:%s:%s:%s" % (side, fam, sym)
@@ -79,6 +81,9 @@ def corpora(seed, tier):
     c["ch"] = g.client_hostile(rng, quick=not thorough)
     c["cf"] = g.client_floods(rng)
     c["cm"] = g.mutated(rng, c["cv"], 3000 if thorough else 120, "client", "cm")
+    # chunked framing overhead against small response caps: controls just under the cap, complete /
+    # truncated over-cap streams below the transport's sync buffer, never-ending paced floods
+    c["cc"], c["co"], c["cg"] = g.client_overhead(rng, quick=not thorough)
     return c
 
 
@@ -341,7 +346,8 @@ class Judge:
     def client(self, st, rec, mode, flavor, req_timeout_ms):
         ref = rec["ref"]
         nv0 = len(self.suspects)
-        cap = g.CLIENT_CAP + g.CLIENT_TRANSPORT_CAP   # both configured caps sit on the receive path
+        own_cap = st.cap or g.CLIENT_CAP
+        cap = own_cap + g.CLIENT_TRANSPORT_CAP   # both configured caps sit on the receive path
         limit = 3 * cap + MIB + 8 * len(st.wire)
         if rec["peak"] > limit:
             self.viol("C15:client:%s:memory-beyond-cap" % (st.hclass or st.cls()),
@@ -381,11 +387,36 @@ class Judge:
             if st.kind == "f" and not self.quiet:
                 self.ctx.obs_max("flood_peak_live_bytes_max", rec["peak"])
                 self.ctx.obs_max("client_flood_bytes_sent_before_abort_max", ref.get("sent", 0))
+            if not self.quiet:
+                if "cap" in ref.get("err", ""):
+                    self.count("client_over_cap_cut_off_by:response-cap")
+                elif "overflow" in ref.get("err", ""):
+                    self.count("client_over_cap_cut_off_by:transport-sync-buffer-overflow")
+            # bytes the scripted server managed to send before the client stopped reading / closed:
+            # at most cap + one read chunk + what the transport's sync buffer and the kernel can hold
+            # (only for the slow-paced small-cap floods: at full pace the transport reads ahead of the client
+            # and, once its sync buffer overflowed, reads and *drops* — bytes sent then say nothing about buffering)
+            if st.kind == "f" and "s" in st.end:
+                bound = own_cap + g.CLIENT_READ_CHUNK + g.CLIENT_TRANSPORT_CAP + g.KERNEL_SLACK
+                if not self.quiet:
+                    self.ctx.obs_max("client_flood_bytes_consumed_over_cap_max", max(0, ref.get("sent", 0) - own_cap))
+                if ref.get("sent", 0) > bound:
+                    self.viol("C15:client:%s:consumed-beyond-cap" % st.hclass,
+                              "never-ending stream (%s): the scripted server had sent %d bytes before the client stopped reading; bound = cap %d + one %d-byte read + %d transport sync buffer + %d kernel slack = %d (client ended with: %s)"
+                              % (st.hclass, ref.get("sent", 0), own_cap, g.CLIENT_READ_CHUNK, g.CLIENT_TRANSPORT_CAP, g.KERNEL_SLACK, bound,
+                                 "Response returned" if ref["ok"] else ref.get("err", "")[:80]), st, rec, mode, flavor)
+            # an over-cap stream that fits the transport's sync buffer: the client's own cap is the only bound in
+            # play, so it must fail with its cap/framing error; failing only when the peer closes (or never) means
+            # the whole stream was buffered
+            if st.kind == "h" and st.hclass.startswith("chunk-overhead-") and not ref["ok"] and ref.get("et") != "framing":
+                self.viol("C15:client:%s:consumed-whole-over-cap-stream" % st.hclass,
+                          "%s: the client did not fail at its cap but read the stream to its end (ended with %s: %s)"
+                          % (st.note, ref.get("et"), ref.get("err", "")[:80]), st, rec, mode, flavor)
             if ref["ok"]:
                 if st.hclass == "cl-and-te" and ref["bl"] == 5 and ref["bx"] == b"hello".hex():
                     self.count("hostile_rejected")   # Transfer-Encoding overrides Content-Length (RFC 9112 6.3 rule 3): acceptable
                 else:
-                    why = ("over-cap / never-ending stream (%s)" % st.hclass) if st.kind == "f" or st.hclass == "header-over-cap" else \
+                    why = ("over-cap / never-ending stream (%s)" % (st.note or st.hclass)) if st.kind == "f" or st.hclass == "header-over-cap" or st.hclass.startswith("chunk-overhead-") else \
                           ("truncated message (%s)" % st.note) if st.hclass.startswith("truncated-") else \
                           ("response with invalid length information (%s)" % (st.note or st.hclass))
                     self.viol(hkey("client", st.hclass), "%s was framed and returned as a complete Response: status %d, %d body bytes (%s)"
@@ -435,7 +466,8 @@ def plan(ctx, bins, corp, priv_bins):
         cl_extra = ["--req-timeout-ms", req_to, "--cpu-limit-ms", 4000 * slow]
         shards += split_shards(fl, "client-socket", cv, "cv", 8 if fl == "plain" else 5, cl_extra)
         shards += split_shards(fl, "client-socket", corp["ch"] + cm, "chm", 6 if fl == "plain" else 4, cl_extra)
-        shards += split_shards(fl, "client-socket", corp["cf"], "cf", 5, cl_extra)
+        shards += split_shards(fl, "client-socket", corp["cf"] + corp["cg"], "cf", 6, cl_extra)
+        shards += split_shards(fl, "client-socket", corp["cc"] + corp["co"], "cco", 6, cl_extra)
         # hostile cases that are expected to be able to hang: last, one process each
         if fl != "tsan":
             hs = sh_hang if fl == "plain" else sh_hang[:6]
@@ -453,7 +485,7 @@ def plan(ctx, bins, corp, priv_bins):
             s2.__dict__.update(s.__dict__)
             s2.segspec = "A;M:4" if len(s.wire) <= 600 else s.segspec
             cvp.append(s2)
-        for sh in split_shards(fl, "client-inproc", cvp + corp["ch"], "cpriv", 8):
+        for sh in split_shards(fl, "client-inproc", cvp + corp["ch"] + corp["cc"] + corp["co"], "cpriv", 8):
             sh.priv = True
             shards.append(sh)
     return shards, hang_shards, req_to
@@ -692,6 +724,7 @@ def run(ctx):
         "a request is 'delivered' iff the catch-all handler registered with setDefaultHandler ran for it; order between pipelined requests is C16's concern and is ignored here",
         "effective server request cap = SessionInfo::MAX_BUFFER_SIZE (1 MiB); client cap configured to 1 MiB (maxResponseBytes = jsonConfig.maxPayloadSize) on top of the transport's 1 MiB maxSyncReceiveBuffer, so the client-side cap in the memory bound is 2 MiB",
         "memory bound per case: peak live bytes (counting operator new/delete, all threads) - baseline <= 3 x cap + 1 MiB + 8 x stream length",
+        "never-ending paced client floods: bytes the scripted server could send before the client stopped reading <= cap + one 8 KiB read + 1 MiB transport sync buffer + 512 KiB kernel slack (server SO_SNDBUF 64 KiB); over-cap streams below 1 MiB must end in HttpFramingError",
         "a single framing call that burns > 4 s CPU (2.5 s for the tiny chunk-size-overflow inputs) on <= 1 MiB of input is an endless loop, confirmed by an isolated re-run",
         "socket modes: segment boundaries are paced / forced by kernel-legal short reads, not guaranteed byte-exact; exact cuts are the in-process modes",
         "Transfer-Encoding overriding Content-Length and LF-only line ends are tolerated either way (RFC 9112 lets a recipient accept or reject)",
